@@ -1,8 +1,38 @@
-(* C16 (bound checks), stated of the SOURCE AS IT IS NOW: Index::for_len, for_len_incl, for_len_unchecked
-   are re-translated from src/index.rs by tools/rs2v.py on every run (Generated/ScanIndex.v).
-   (Index::from_str is an iterator chain over chars; it is modelled by hand only -- Model/Index.v.) *)
-From JP Require Import Bytes GenPrelude Model.Index Generated.ScanTypes Generated.ScanIndex
-  Proofs.GenEquivBase Proofs.GenEquivIndex.
+(* C16, stated of the SOURCE AS IT IS NOW: `impl FromStr for Index`, `From<ParseIntError> for ParseIndexError`,
+   Index::for_len, for_len_incl, for_len_unchecked are re-translated from src/index.rs by tools/rs2v.py on every run
+   (Generated/ScanIndex.v).  from_str locates the first non-digit with `s.chars().position(..)`, a CHAR index: the
+   generated definition goes through the code points ([str_chars]) and the theorems assume the text is well-formed
+   UTF-8 ([utf8_valid], which every Rust `str` is).  `str::parse::<usize>` is the hand-written [parse_usize]. *)
+From JP Require Import Bytes Dec GenPrelude GenTreePrelude Model.Index Utf8 Generated.ScanTypes Generated.ScanIndex
+  Proofs.GenEquivBase Proofs.GenEquivIndex Proofs.GenEquivIndexStr.
+
+(* the regenerated parser is the model's parser on every Rust str; it never panics *)
+Theorem C16_src_from_str_is_model : forall s : str, utf8_valid s = true ->
+  gen_Index_from_str s =
+  Ret (match index_from_str s with Ok i => Ok (gen_index_of i) | Err e => Err (gen_pie_of s e) end).
+Proof. exact gen_index_from_str_eq. Qed.
+Print Assumptions C16_src_from_str_is_model.
+
+(* it accepts exactly "-" and the canonical decimal spellings of the values that fit in usize *)
+Theorem C16_src_accept_exact : forall s : str, utf8_valid s = true ->
+  (gen_Index_from_str s = Ret (Ok Index_Next) <-> s = [DASH]) /\
+  (forall n, gen_Index_from_str s = Ret (Ok (Index_Num n)) <-> n <= USIZE_MAX /\ s = dec_of_N n).
+Proof. exact gen_from_str_accept_exact. Qed.
+Print Assumptions C16_src_accept_exact.
+
+(* every rejection is the model's rejection (kind, offset, source text), to which C16_rejections_truthful applies *)
+Theorem C16_src_rejections : forall (s : str) (e : ParseIndexError), utf8_valid s = true ->
+  gen_Index_from_str s = Ret (Err e) ->
+  exists me, index_from_str s = Err me /\ e = gen_pie_of s me.
+Proof. exact gen_from_str_rejections. Qed.
+Print Assumptions C16_src_rejections.
+
+(* the char index the source computes is the byte index the model (and `char()`) uses *)
+Theorem C16_src_char_offset_is_byte_offset : forall s : str, utf8_valid s = true ->
+  chars_positionN (fun c => negb (is_digit c)) s = positionN (fun c => negb (is_digit c)) s.
+Proof. exact chars_position_nondigit. Qed.
+Print Assumptions C16_src_char_offset_is_byte_offset.
+
 
 Theorem C16_src_bound_checks_exact : forall (i : Index) (n : N),
   gen_Index_for_len i n =
@@ -23,6 +53,15 @@ Theorem C16_src_bound_checks_are_model : forall (i : index) (n : N),
   gen_Index_for_len_unchecked (gen_index i) n = Ret (for_len_unchecked i n).
 Proof. intros i n. exact (conj (gen_for_len_eq i n) (conj (gen_for_len_incl_eq i n) (gen_for_len_unchecked_eq i n))). Qed.
 Print Assumptions C16_src_bound_checks_are_model.
+
+Example C16_src_from_str_examples :
+  gen_Index_from_str [DASH] = Ret (Ok Index_Next) /\
+  gen_Index_from_str [49; 50] = Ret (Ok (Index_Num 12)) /\
+  gen_Index_from_str [ZERO; 49] = Ret (Err ParseIndexError_LeadingZeros) /\
+  gen_Index_from_str [49; 195; 169] = Ret (Err (ParseIndexError_InvalidCharacter (mk_InvalidCharacterError [49; 195; 169] 1))) /\
+  gen_Index_from_str [] = Ret (Err (ParseIndexError_InvalidInteger ParseIntError_Empty)) /\
+  gen_Index_from_str [49;56;52;52;54;55;52;52;48;55;51;55;48;57;53;53;49;54;49;54] = Ret (Err (ParseIndexError_InvalidInteger ParseIntError_PosOverflow)).
+Proof. vm_compute. repeat split. Qed.
 
 Example C16_src_examples :
   gen_Index_for_len (Index_Num 1) 1 = Ret (Err (mk_OutOfBoundsError 1 1)) /\
